@@ -1,50 +1,17 @@
-# Per-property unit tables for vcheck. Each unit is one test function in one
-# test binary; "mode" A = /verif/harness package, B = overlay test inside /repo.
-
-def R(name, mode, pkg, test, q, t, **kw):
-    d = dict(name=name, mode=mode, pkg=pkg, test=test, kind="rapid",
-             quick=dict(checks=q[0], shards=q[1]), thorough=dict(checks=t[0], shards=t[1]))
-    d.update(kw)
-    return d
-
-def E(name, mode, pkg, test, qshards=1, tshards=16, **kw):
-    d = dict(name=name, mode=mode, pkg=pkg, test=test, kind="enum",
-             quick=dict(shards=qshards), thorough=dict(shards=tshards))
-    d.update(kw)
-    return d
-
-def F(name, pkg, test, secs, **kw):
-    d = dict(name=name, mode="A", pkg=pkg, test=test, kind="fuzz", tiers=("thorough",),
-             thorough=dict(fuzztime=secs))
-    d.update(kw)
-    return d
-
+# Loads the per-property unit tables from driver/props/*.py (one file per
+# property, each defining PROP = dict(id=..., level=..., rule=..., units=[...])).
+import glob, importlib.util, os, sys
+_here = os.path.dirname(os.path.abspath(__file__))
+sys.path.insert(0, _here)
 PROPS = {}
-
-
-PROPS["C03"] = dict(
-    level="exploration",
-    level_text=("Differential property-based testing of the reader's number parsing against strconv on generated numeric "
-                "texts aimed at rounding boundaries (exact decimal midpoints computed with math/big), range edges and "
-                "near-miss spellings; searches for a counterexample, does not prove absence."),
-    level_note="Trusted: Go standard library strconv (oracle), math/big (midpoint construction). Inputs are single white-space-free fields below the scanner's line limit.",
-    technique="property-based differential testing (rapid) + enumerated hostile constants + native fuzzing in thorough",
-    rule=("One-line inputs 'BenchmarkX 1 <txt> u' / 'BenchmarkX <txt> 1 u' with <txt> from four aimed generators "
-          "(numeric grammar incl. hex/underscore/inf/nan spellings; float-derived texts incl. exact decimal midpoints "
-          "between adjacent floats and their neighbours; range-edge constants; integers around 2^53/2^63/2^64 and the "
-          "fast-path guard) plus single-edit mutations; oracle strconv.ParseFloat/Atoi bit-for-bit. Non-trivial = strconv "
-          "accepts the text and it is not a plain <=15-digit integer (value) / <=9-digit integer (iters), or strconv rejects "
-          "it with ErrRange. Distinct = distinct case JSON (64-bit FNV), capped at 300000 per shard."),
-    assumptions=["strconv.ParseFloat and strconv.Atoi of the Go standard library are correct (trusted oracle)"],
-    units=[
-        R("rapid", "A", "./c03", "TestC03Rapid", (60000, 4), (1500000, 16)),
-        E("fixed", "A", "./c03", "TestC03Fixed", 1, 1),
-    ],
-)
-
+for _f in sorted(glob.glob(os.path.join(_here, "props", "c*.py"))):
+    _spec = importlib.util.spec_from_file_location("prop_" + os.path.basename(_f)[:-3], _f)
+    _m = importlib.util.module_from_spec(_spec)
+    _spec.loader.exec_module(_m)
+    PROPS[_m.PROP["id"]] = _m.PROP
 
 # Properties not (yet) claimed. Kept current automatically: everything in
-# properties.jsonl without a unit table above.
+# properties.jsonl without a unit table.
 ALL_IDS = ["C%02d" % i for i in range(1, 21)]
 NOT_APPLICABLE_REASONS = {}
 NOT_APPLICABLE = [
